@@ -46,10 +46,37 @@ def gen(d, tier):
     def content():
         nc[0] += 1
         return "v%d" % nc[0]
+    focus = d.choice(("/r1", "/f/r2"))        # locality: long request / un-request / edit stories about one file
+
+    def pick(cands):
+        if focus in cands and d.chance(2, 3):
+            return focus
+        return d.choice(cands)
     n = d.int(6, 14 if tier == "quick" else 24)
     for _ in range(n):
         k = d.weighted((("r_create", 4), ("r_write", 2), ("r_delete", 1), ("l_create", 2), ("l_write", 2),
-                        ("request", 7), ("unrequest", 5), ("step", 4), ("settle", 5), ("listdir", 1)))
+                        ("request", 7), ("unrequest", 5), ("step", 4), ("settle", 5), ("listdir", 1), ("story", 2)))
+        if k == "story":
+            # a longer life of one file: request, un-request, request again, then an edit on either side
+            p = focus
+            if p in R and p not in lcreated and not touched:
+                def quiet():
+                    nonlocal known, touched, present
+                    acts.append(["settle"])
+                    known = set(R)
+                    touched = set()
+                    if cfg["auto"]:
+                        present |= {q for q in R if "auto" in q}
+                quiet()
+                if p not in present:
+                    acts.append(["request", p, d.choice(("path", "oid"))]); requested.add(p); present.add(p); quiet()
+                if p in requested:
+                    acts.append(["unrequest", p, d.choice(("path", "oid"))]); requested.discard(p); present.discard(p); quiet()
+                    acts.append(["request", p, d.choice(("path", "oid"))]); requested.add(p); present.add(p); quiet()
+                    R[p] = content()
+                    acts.append(["u", d.int(0, 1), "write", p, R[p]])
+                    quiet()
+            continue
         if k == "r_create":
             cands = [f + "/" + nm for f in FOLDERS for nm in RNAMES if f + "/" + nm not in R and f + "/" + nm not in touched]
             if cands:
@@ -60,14 +87,14 @@ def gen(d, tier):
         elif k == "r_write":
             cands = [p for p in sorted(R) if p not in touched and p in known]
             if cands:
-                p = d.choice(cands)
+                p = pick(cands)
                 R[p] = content()
                 touched.add(p)
                 acts.append(["u", 1, "write", p, R[p]])
         elif k == "r_delete":
             cands = [p for p in sorted(R) if p not in touched and p in known and p not in lcreated]
             if cands:
-                p = d.choice(cands)
+                p = pick(cands)
                 del R[p]
                 touched.add(p)
                 requested.discard(p)
@@ -85,14 +112,14 @@ def gen(d, tier):
         elif k == "l_write":
             cands = [p for p in sorted(present) if p not in touched and p in known and p in R]
             if cands:
-                p = d.choice(cands)
+                p = pick(cands)
                 R[p] = content()
                 touched.add(p)
                 acts.append(["u", 0, "write", p, R[p]])
         elif k == "request":
             cands = [p for p in sorted(R) if p in known and p not in present and p not in touched]
             if cands:
-                p = d.choice(cands)
+                p = pick(cands)
                 requested.add(p)
                 present.add(p)
                 touched.add(p)
@@ -101,7 +128,7 @@ def gen(d, tier):
             cands = [p for p in sorted(requested) if p in known and p in present and p not in touched and p in R
                      and p not in lcreated]
             if cands:
-                p = d.choice(cands)
+                p = pick(cands)
                 requested.discard(p)
                 present.discard(p)
                 touched.add(p)
